@@ -34,6 +34,7 @@ def check(ctx):
   ctx.rule('C14.R5', 'wrap: TimeoutError untouched, otherwise ScalesError(inner, text) when a stack was captured; caller gets set_exception of it')
   ctx.decline('agreement with the Thrift library codec for every value (delegated to generated write/read) and processor-side decoding are not decided')
   r1(ctx)
+  default_protocol(ctx)
   wire.complete_write_rules(ctx, 'C14.R1')
   r2(ctx)
   r3(ctx)
@@ -411,3 +412,19 @@ def r5(ctx):
   ctx.ob('C14.R5', mr, 'MethodReturnMessage stores value and error as given', oks, 'field assignment changed', why, nontrivial=False)
   oka = mr.params[1:3] == ['return_value', 'error']
   ctx.ob('C14.R5', mr, 'MethodReturnMessage(return_value, error) parameter order', oka, 'parameters are %s' % mr.params, why, nontrivial=False)
+
+
+def default_protocol(ctx):
+  """The binary protocol the stack uses by default must take every value the interface allows: length limits on the
+  factory make the reply decoder reject large strings/containers that the server legitimately returns."""
+  prog = ctx.prog
+  m = prog.module(TS)
+  calls = [c for c in ast.walk(m.tree if hasattr(m, 'tree') else m.node) if isinstance(c, ast.Call) and (dotted(c.func) or '').split('.')[-1] in
+           ('TBinaryProtocolAcceleratedFactory', 'TBinaryProtocolFactory')]
+  ctx.floor('C14.R3', 'default protocol factory sites', len(calls), 1)
+  for c in calls:
+    lim = [k.arg for k in c.keywords if k.arg in ('string_length_limit', 'container_length_limit')] + (['positional'] if len(c.args) > 2 else [])
+    ctx.ob('C14.R3', prog.func(TS, 'ThriftSerializerSink.__init__') if prog.try_func(TS, 'ThriftSerializerSink.__init__') else prog.cls(TS, 'ThriftSerializerSink'),
+           'the default binary protocol has no string/container length limit', not lim,
+           'the default protocol factory is built with %s: a normal reply carrying a longer string or a larger container is turned into an error' % lim,
+           'for every method and every argument/return value the reply yields its return value')
